@@ -84,6 +84,21 @@ func optKV(k, v int, ok bool) string {
 	return "ok none"
 }
 
+var (
+	hangMu sync.Mutex
+	hangs  = map[string]int{} // component -> cases that did not return (their goroutines keep spinning)
+)
+
+// a component that hung twice is not exercised further in this run: every further hang costs the
+// watchdog time and leaks a spinning goroutine, and two witnesses are enough
+func gaveUp(comp string) bool {
+	hangMu.Lock()
+	defer hangMu.Unlock()
+	return hangs[comp] >= 2
+}
+
+const watchdog = 3 * time.Second
+
 // Exec runs one case on the real heap package with a per-case watchdog (a consolidation that never
 // returns must end the case with "hang", not stall the run).
 func Exec(c hx.Case) hx.Result {
@@ -97,14 +112,17 @@ func Exec(c hx.Case) hx.Result {
 	select {
 	case <-done:
 		return res
-	case <-time.After(20 * time.Second):
+	case <-time.After(watchdog):
+		hangMu.Lock()
+		hangs[hx.HeaderGet(c.Header, "comp")]++
+		hangMu.Unlock()
 		mu.Lock()
 		defer mu.Unlock()
 		snap := hx.Result{BadOp: res.BadOp, What: res.What, Sig: res.Sig, Nontrivial: res.Nontrivial}
 		snap.Outs = append(append([]string{}, res.Outs...), "hang")
 		if snap.BadOp < 0 {
 			snap.BadOp = len(snap.Outs) - 1
-			snap.What = "operation did not return within 20 s"
+			snap.What = fmt.Sprintf("%s did not return within %v", c.Ops[min(len(snap.Outs)-1, len(c.Ops)-1)], watchdog)
 		}
 		snap.Tags = []string{"hang"}
 		return snap
@@ -593,13 +611,15 @@ func Main(run *hx.Run) {
 	for _, f := range hx.CorpusFiles("C04") {
 		cs, _ := hx.ReadReplay(f)
 		for _, c := range cs {
-			run.Do(hx.HeaderGet(c.Header, "comp"), c, Exec)
+			if comp := hx.HeaderGet(c.Header, "comp"); !gaveUp(comp) {
+				run.Do(comp, c, Exec)
+			}
 		}
 	}
 	for _, comp := range comps {
 		r := run.R.Fork(comp)
-		n := run.Scale(400)
-		for k := 0; k < n; k++ {
+		n := run.Scale(1500)
+		for k := 0; k < n && !gaveUp(comp); k++ {
 			ori := hx.Pick(r, oris)
 			if r.Chance(1, 2) {
 				ori = hx.Pick(r, oris[:2])
@@ -609,14 +629,14 @@ func Main(run *hx.Run) {
 			run.Do(comp, c, Exec)
 		}
 		rc := run.R.Fork(comp + "-churn")
-		n = run.Scale(12)
-		for k := 0; k < n; k++ {
+		n = run.Scale(40)
+		for k := 0; k < n && !gaveUp(comp); k++ {
 			c := hx.Case{Header: header(comp, hx.Pick(rc, oris), rc.Intn(5)), Ops: genChurn(rc, comp, rc.Range(1, 3))}
 			run.Do(comp, c, Exec)
 		}
 	}
 	// maxDegree: the integer Model of the float computation, on every n of a range
-	hi := 30000
+	hi := 100000
 	if run.Thorough() {
 		hi = 1000000
 	}
@@ -629,6 +649,9 @@ func Main(run *hx.Run) {
 			for size := 0; size <= 2; size++ {
 				for n := 1; n <= 7; n++ {
 					exhaustive(alphaB, n, func(ops []string) {
+						if gaveUp("binary") {
+							return
+						}
 						ops = append(withValues(ops), "peek 0", "size 0", "dump 0")
 						run.Do("binary", hx.Case{Header: header("binary", ori, size), Ops: ops}, Exec)
 					})
@@ -641,6 +664,9 @@ func Main(run *hx.Run) {
 			for _, ori := range oris[:2] {
 				for n := 1; n <= 6; n++ {
 					exhaustive(alphaM, n, func(ops []string) {
+						if gaveUp(comp) {
+							return
+						}
 						ops = append(withValues(ops), "peek 0", "size 0", "dump 0", "dump 1")
 						run.Do(comp, hx.Case{Header: header(comp, ori, 0), Ops: ops}, Exec)
 					})
@@ -650,6 +676,9 @@ func Main(run *hx.Run) {
 			alphaS := []string{"ins 0 0", "ins 0 1", "ins 0 2", "del 0"}
 			for n := 7; n <= 8; n++ {
 				exhaustive(alphaS, n, func(ops []string) {
+					if gaveUp(comp) {
+						return
+					}
 					ops = append(withValues(ops), "del 0", "dump 0")
 					run.Do(comp, hx.Case{Header: header(comp, "min", 0), Ops: ops}, Exec)
 				})
